@@ -336,3 +336,118 @@ func H14b_blocked_producer() {
 	vrtObserve("blocked", wn, steps)
 	vrtReach("C14.blocked_producer")
 }
+
+// H14c_concurrent: one producer operation || a consumer that reads twice, under
+// the exploring scheduler (a switch at every lock / condition / atomic
+// operation of the buffer within the preemption bound): what the consumer
+// obtains is, in every interleaving, a prefix of (bytes committed before)
+// ++ (bytes the producer writes) - nothing stale, duplicated or reordered -
+// and the producer overwrites nothing the consumer has not committed.
+func H14c_concurrent() {
+	bf, err := newBuffer(1)
+	if err != nil {
+		panic(err)
+	}
+	// (the ring keeps its ordinary cell-per-byte representation: the race detector tracks cells)
+	var c int64
+	switch vrtChoice("pos", 3) {
+	case 0:
+		c = 0
+	case 1:
+		c = bf.size - 2 // the written bytes straddle the end of the ring
+	case 2:
+		c = 5*bf.size - 1
+	}
+	fill := int64(vrtChoice("fill", 3)) // 0, 1 or size-1 bytes committed before
+	if fill == 2 {
+		fill = bf.size - 1
+	}
+	bf.cseq.set(c)
+	bf.pseq.set(c + fill)
+	bf.pseq.gate = c
+	// the stream: first bytes of the committed part, then the producer's
+	s0, s1 := vrtByte("s0"), vrtByte("s1")
+	x0, x1 := vrtByte("x0"), vrtByte("x1")
+	bf.buf[c&bf.mask] = s0
+	bf.buf[(c+1)&bf.mask] = s1
+	xs := []byte{x0, x1}
+	var stream []byte
+	switch {
+	case fill == 0:
+		stream = []byte{x0, x1}
+	case fill == 1:
+		stream = []byte{s0, x0, x1}
+	default:
+		stream = []byte{s0, s1}
+	}
+	pop := vrtChoice("pop", 3)
+	cop := vrtChoice("cop", 3)
+	if pop == 2 && fill > 1 {
+		return // ReadFrom reserves a whole read block: it legitimately waits for ever here
+	}
+	var got []byte
+	var perr, cerr error
+	vrtGo(func() {
+		switch pop {
+		case 0:
+			_, perr = bf.Write(xs)
+		case 1:
+			var b []byte
+			var wrap bool
+			b, wrap, perr = bf.WriteWait(2)
+			if perr == nil && wrap {
+				_, perr = bf.Write(xs)
+			} else if perr == nil {
+				copy(b, xs)
+				_, perr = bf.WriteCommit(2)
+			}
+		case 2:
+			_, perr = bf.ReadFrom(&vrtChunkReader{data: xs})
+			if perr == io.EOF {
+				perr = nil
+			}
+		}
+	})
+	vrtGo(func() {
+		// two consumer steps: one byte, then up to two (at least two bytes arrive in total)
+		for round := 0; round < 2 && cerr == nil; round++ {
+			want := 1 + round
+			switch cop {
+			case 0:
+				b := make([]byte, want)
+				var n int
+				n, cerr = bf.Read(b)
+				got = append(got, b[:n]...)
+			case 1:
+				var b []byte
+				b, cerr = bf.ReadPeek(want)
+				if cerr == ErrBufferInsufficientData {
+					cerr = nil
+				}
+				if cerr == nil {
+					got = append(got, b...)
+					_, cerr = bf.ReadCommit(len(b))
+				}
+			case 2:
+				var b []byte
+				b, cerr = bf.ReadWait(1)
+				if cerr == nil {
+					got = append(got, b...)
+					_, cerr = bf.ReadCommit(len(b))
+				}
+			}
+		}
+	})
+	vrtJoin()
+	vrtAssert("C14.concurrent_producer_ok", perr == nil)
+	vrtAssert("C14.concurrent_consumer_ok", cerr == nil)
+	vrtAssert("C14.concurrent_consumed_at_least_two", len(got) >= 2)
+	vrtAssert("C14.concurrent_not_more_than_produced", int64(len(got)) <= fill+2)
+	for i := 0; i < len(got) && i < len(stream); i++ {
+		vrtAssert("C14.concurrent_prefix_of_stream", got[i] == stream[i])
+	}
+	vrtAssert("C14.concurrent_cursors", vrtAnd(bf.cseq.get() == c+int64(len(got)), bf.pseq.get() == c+fill+2))
+	// the producer's bytes are in place behind the committed part
+	vrtAssert("C14.concurrent_written_in_place", vrtAnd(bf.buf[(c+fill)&bf.mask] == x0, bf.buf[(c+fill+1)&bf.mask] == x1))
+	vrtReach("C14.concurrent")
+}
